@@ -361,6 +361,52 @@ def child_run(case, lib, eng=None):
     arr = engine_io.system_arrays(script, option != "euler")
     arr.pop("us", None)
     ns, nc = traj.nspecies(), traj.ncells()
+    accessor_diff = None
+    if case.get("mutate_accessors"):
+        # what the accessors return is the caller's: edit every returned object in place (a bolus added to a fetched state,
+        # apply_reaction on it, set_at, value[...] +=) — the recorded data must stay what it was, bit for bit
+        snap = np.array(traj.data.value, dtype=float, copy=True)
+        labs = [s.label for s in system.network.species]
+        nsmp = traj.nsamples()
+        for k in sorted(set([0, nsmp // 2, nsmp - 1])):
+            if k < 0 or k >= nsmp:
+                continue
+            g = traj.get_state(None, k)
+            g.set_at(0, g.get_at(0) + 3)
+            try:
+                g.value[...] += 7
+            except Exception:
+                pass
+            for lab in labs[:2]:
+                gs = traj.get_state(lab, k)
+                gs.set_at(nc - 1, gs.get_at(nc - 1) + 11)
+                try:
+                    gs.value[...] *= 2
+                except Exception:
+                    pass
+            if system.network.reactions:
+                g2 = traj.get_state(None, k)
+                try:
+                    system.apply_reaction(system.network.reactions[0], position=0, n=2, state=g2, update=False)
+                    system.apply_reaction(system.network.reactions[0], position=0, n=2, state=g2, update=True)
+                except Exception:
+                    pass
+        for lab in labs:
+            tr = traj.get_trajectory(lab, 0)
+            tr.set_at(0, tr.get_at(0) + 5)
+            try:
+                tr.value[...] += 1
+            except Exception:
+                pass
+            trm = traj.get_trajectory(lab, merge=True)
+            try:
+                trm.value[...] += 1
+            except Exception:
+                pass
+        after = np.asarray(traj.data.value, dtype=float)
+        bad = np.nonzero(~((snap == after) | (np.isnan(snap) & np.isnan(after))))[0]
+        accessor_diff = [{"index": int(i), "sample": int(i) // (ns * nc), "before": float(snap[i]), "after": float(after[i])}
+                         for i in bad[:6]]
     tdata = traj.data
     if case.get("units") and case["units"].get("quantity", "molecule") != "molecule":
         # amounts come back in the script's quantity unit: re-express them in molecules (exact up to one rounding,
@@ -376,7 +422,8 @@ def child_run(case, lib, eng=None):
     else:
         data = np.asarray(tdata.value, dtype=float).reshape((traj.nsamples(), ns * nc))
     return {"t": [float(v) for v in traj.t.value], "x": [[float(v) for v in row] for row in data],
-            "draws": [[k, a, b, r] for (k, a, b, r) in draws], "arr": arr, "complete": complete, "iterations": it}
+            "draws": [[k, a, b, r] for (k, a, b, r) in draws], "arr": arr, "complete": complete, "iterations": it,
+            "accessor_diff": accessor_diff}
 
 
 def child_run_seq(case, lib):
